@@ -35,8 +35,15 @@ def make_array(spec):
     dirs = fibonacci_directions(spec["n_pos"])
     radii = np.array([0.0, 1.7, 3.1, 12.5])
     pos = np.array([radii[i % 4] * d for i, d in enumerate(dirs)])
-    rows = [np.concatenate([p, q]) for p in pos for q in quats]
-    return np.array(rows)
+    rows = np.array([np.concatenate([p, q]) for p in pos for q in quats])
+    if spec.get("order") == "orientation_slow":
+        rows = np.array([np.concatenate([p, q]) for q in quats for p in pos])
+    elif spec.get("order") == "shuffled":
+        perm = np.random.Generator(np.random.PCG64(99)).permutation(len(rows))
+        rows = rows[perm][: (2 * len(rows)) // 3]          # shuffled and with a third of the rows removed
+    elif spec.get("order") == "repeats":
+        rows = np.concatenate([rows[:3], rows[:1], rows[1:2], rows[:1], rows[40:43], rows[2:3]])
+    return rows
 
 
 def run_case(case):
@@ -99,6 +106,22 @@ def run_case(case):
                                f"[{kind}] (row {np.round(arr[k], 4).tolist()})", case, expected=want2[:2].tolist(),
                                observed=P[n1:][:2].tolist()))
                 break
+        # the generator itself: frames kept by the caller and inspected after the generator has moved on
+        if not vs:
+            try:
+                kept = list(Pseudotrajectory(u1, u2, arr).generate_pseudotrajectory())
+                if [i for i, _ in kept] != list(range(len(arr))):
+                    vs.append(viol(pre + "|generator_indices", "generator does not yield frame indices 0,1,2,...", case,
+                                   observed=[int(i) for i, _ in kept][:8]))
+                for k in range(0, len(kept), max(1, len(kept) // 40)):
+                    Pk = np.asarray(kept[k][1].atoms.positions, dtype=float)
+                    if Pk.shape != frames[k].shape or np.abs(Pk - frames[k]).max() > TOL:
+                        vs.append(viol(pre + f"|generator_aliasing|frame={k}", f"frame {k} yielded by the generator, inspected "
+                                       "after the generator was exhausted, is no longer the placement of row k", case,
+                                       observed=float(np.abs(Pk - frames[k]).max()) if Pk.shape == frames[k].shape else None))
+                        break
+            except Exception as e:
+                vs.append(viol(pre + "|generator_raises", f"{type(e).__name__}: {str(e)[:100]}", case))
         # history part
         if not vs:
             U2 = pt.get_pt_as_universe()
@@ -191,7 +214,10 @@ def cases(tier):
               {"type": "grid", "name": "grid_cube4D8_ico12_3r", "b": "cube4D_8", "o": "ico_12", "t": "[0.1,0.25,0.3]"},
               {"type": "grid", "name": "grid_randomQ7_cube3D9_1r", "b": "randomQ_7", "o": "cube3D_9", "t": "0.45"},
               {"type": "nongrid", "name": "nongrid_12x54", "n_pos": 12, "n_generic": 30},
-              {"type": "nongrid", "name": "nongrid_special_4x82", "n_pos": 4, "n_generic": 0, "special": True}]
+              {"type": "nongrid", "name": "nongrid_special_4x82", "n_pos": 4, "n_generic": 0, "special": True},
+              {"type": "nongrid", "name": "nongrid_orientation_slow", "n_pos": 5, "n_generic": 6, "order": "orientation_slow"},
+              {"type": "nongrid", "name": "nongrid_shuffled", "n_pos": 6, "n_generic": 8, "order": "shuffled"},
+              {"type": "nongrid", "name": "nongrid_repeats", "n_pos": 3, "n_generic": 4, "order": "repeats"}]
     if tier == "thorough":
         arrays.append({"type": "nongrid", "name": "nongrid_24x224", "n_pos": 24, "n_generic": 200})
         arrays.append({"type": "grid", "name": "grid_cube4D40_ico42_2r", "b": "cube4D_40", "o": "ico_42", "t": "[0.2,0.5]"})
